@@ -1191,7 +1191,9 @@ def randcap(nrand, ra, dec, rad, get_radius=False, dorot=False, rng=None):
         atbound(rand_ra, 0.0, 360.0)
 
     if get_radius:
-        np.rad2deg(rand_r, rand_r)
+        if not dorot:
+            # on the rotated path the radii already came back in degrees
+            np.rad2deg(rand_r, rand_r)
         return rand_ra, rand_dec, rand_r
     else:
         return rand_ra, rand_dec
